@@ -5,7 +5,7 @@ S=$1; P=$2; T=${3:-quick}
 cd /repo || exit 9
 if ! git diff --quiet; then echo "$S: /repo has uncommitted changes, refusing"; exit 9; fi
 if ! git apply --3way /verif/seeded/$S/patch.diff >/tmp/run_seed_apply.log 2>&1; then
-  git checkout -q -- . ; git reset -q; echo "$S vs $P: PATCH-CONFLICT (seed overlaps a later fix/hook commit)"; exit 7
+  git reset -q --hard HEAD; echo "$S vs $P: PATCH-CONFLICT (seed overlaps a later fix/hook commit)"; exit 7
 fi
 git reset -q   # keep the change in the working tree only
 cd /verif && ./check $P --tier $T > /tmp/run_seed_$S_$P.log 2>&1; RC=$?
